@@ -164,6 +164,7 @@ func c03Check(x *engine.Exec, cd *Codec, in []byte, fam string, combos [][3]int)
 		if entry >= 4 && res.Err == nil {
 			engine.Fail("decoder loop ended without error")
 		}
+		x.Outcome(ent + "|" + errStr(res.Err))
 	}
 }
 
